@@ -144,6 +144,7 @@ class Session:
             ops.append(['rel', 'B'])
             ops.append(['disc', 'B'])
         ops.append(['conn', 'C'] if self.c_state == 'closed' else ['disc', 'C'])
+        ops.append(['reload'])        # unchanged configuration re-read: the monitor stays a monitor, nobody hears anything
         if self.monitor is None and 'M' not in self.dead:
             if self.mstate == 'plain':
                 ops.append(['mprep', 'own'])
@@ -373,6 +374,11 @@ class Session:
                 run.send(op[1], m)
                 if run is self.a:
                     sent.append((op[1], m))
+        elif kind == 'reload':
+            for run in (self.a, self.b):
+                run.reload_same(out, desc + (' (bus with monitor)' if run is self.a else ' (bus without monitor)'))
+            if out:
+                return out
         elif kind == 'disc':
             l = op[1]
             for run in (self.a, self.b):
